@@ -96,6 +96,8 @@ const (
 	kPoisonNC = "poison-noncritical"
 	kPoisonNN = "poison-nonnull"
 	kPoisonE  = "poison-empty"
+	kPoisonT  = "poison-null-plus-trailing" // 05 00 followed by further bytes
+	kPoisonL  = "poison-null-long-length"   // 05 81 00: NULL with a non-minimal length
 )
 
 var (
@@ -115,6 +117,10 @@ func buildLeaf(id, key string, parent *node, kind string, ekus []string) *node {
 		exts = append(exts, pki.Ext{OID: pki.OIDPoison, Critical: true, Value: der.Int(0), Label: "poison"})
 	case kPoisonE:
 		exts = append(exts, pki.Ext{OID: pki.OIDPoison, Critical: true, Value: []byte{}, Label: "poison"})
+	case kPoisonT:
+		exts = append(exts, pki.Ext{OID: pki.OIDPoison, Critical: true, Value: []byte{5, 0, 5, 0}, Label: "poison"})
+	case kPoisonL:
+		exts = append(exts, pki.Ext{OID: pki.OIDPoison, Critical: true, Value: []byte{5, 0x81, 0}, Label: "poison"})
 	}
 	if len(ekus) > 0 {
 		var o [][]int
@@ -271,7 +277,7 @@ func newWorld(thorough bool) *world {
 		{"reissued-root", "p256-3", I1, []*node{I1, R1re, R1}},
 		{"renamed-root-aki", "p256-3", K, []*node{K, R3new}},
 	}
-	kinds := []string{kCert, kPre, kPoisonNC, kPoisonNN}
+	kinds := []string{kCert, kPre, kPoisonNC, kPoisonNN, kPoisonT, kPoisonL}
 	if thorough {
 		kinds = append(kinds, kPoisonE)
 	}
